@@ -46,11 +46,17 @@ var attrNames = []string{"title", "data-a", "data-b", "class", "style", "id", "a
 var tags = []string{"div", "span", "p", "section", "b"}
 var jsStatics = []string{"var a = ", "console.log(", "let s = 'single'; var b = ", "/* c */ var d = "}
 
+// bigText is one static run larger than 64 KiB (an inlined stylesheet or image would be).
+var bigText = strings.Repeat("0123456789abcdef ", 4200)
+
 type gen struct{ r *rand.Rand }
 
 func (g *gen) pick(s []string) string { return s[g.r.IntN(len(s))] }
 
 func (g *gen) leaf() item {
+	if g.r.IntN(30) == 0 {
+		return item{K: "text", Text: bigText}
+	}
 	switch g.r.IntN(9) {
 	case 0, 1:
 		return item{K: "text", Text: g.pick(texts)}
